@@ -94,6 +94,13 @@ func replay(path string) int {
 	plan.Expect, plan.Rendered = nil, nil
 	t0 := time.Now()
 	r := ev.eval(&plan)
+	if useRace && !r.hard && r.class == "" {
+		// ThreadSanitizer keeps four accesses per 8-byte word and evicts them pseudo-randomly, so the
+		// same schedule does not produce the report every single time: a race plan gets up to five runs
+		for i := 0; i < 4 && r.class == "" && !r.hard; i++ {
+			r = ev.eval(&plan)
+		}
+	}
 	if r.hard {
 		fmt.Fprintf(os.Stderr, "verif: replay failed to run: %s\n", r.detail)
 		return 2
